@@ -348,7 +348,13 @@ func (b *Body) isFindObjectCall(c *ssa.CallCommon) bool {
 		return false
 	}
 	res := f.Signature.Results()
-	return res.Len() == 2 && isNamed(res.At(0).Type(), "container")
+	// (container, key): a function that answers (container, error) builds a container, it
+	// does not resolve a location
+	if res.Len() != 2 || !isNamed(res.At(0).Type(), "container") {
+		return false
+	}
+	bt, ok := res.At(1).Type().Underlying().(*types.Basic)
+	return ok && bt.Kind() == types.String
 }
 
 func isOperationAccessor(c *ssa.CallCommon) bool {
